@@ -210,6 +210,211 @@ fn pow_fast64(e: usize) -> u64 {
     unsafe { <f64 as Float>::pow_fast_path(e) }.to_bits()
 }
 
+
+// ---------------------------------------------------------------------------
+// big-integer operations (C12) and vector histories (C13)
+
+use crate::cfgs::{BigOp, BigOut, VecObs, VecOp};
+use ml::bigint::{self, Bigint, VecType};
+
+fn vec_from(x: &[u64]) -> Option<VecType> {
+    VecType::try_from(x)
+}
+
+/// Apply one big-integer operation to the number with limbs `x` (little endian).
+/// `None` = the operation reported failure.
+fn big_apply(x: &[u64], op: &BigOp) -> BigOut {
+    let mut v = match vec_from(x) {
+        Some(v) => v,
+        None => return BigOut::Failed,
+    };
+    let r: Option<()> = match op {
+        BigOp::SmallAdd(y) => bigint::small_add(&mut v, *y),
+        BigOp::SmallMul(y) => bigint::small_mul(&mut v, *y),
+        BigOp::LargeAddFrom(y, start) => bigint::large_add_from(&mut v, y, *start),
+        BigOp::LongMul(y) => match bigint::long_mul(x, y) {
+            Some(z) => {
+                v = z;
+                Some(())
+            }
+            None => None,
+        },
+        BigOp::LargeMul(y) => bigint::large_mul(&mut v, y),
+        BigOp::Pow5(e) => bigint::pow(&mut v, *e),
+        BigOp::BigintPow(base, e) => {
+            let mut b = Bigint {
+                data: v.clone(),
+            };
+            let r = b.pow(*base, *e);
+            v = b.data;
+            r
+        }
+        BigOp::ShlBits(n) => bigint::shl_bits(&mut v, *n),
+        BigOp::ShlLimbs(n) => bigint::shl_limbs(&mut v, *n),
+        BigOp::Shl(n) => bigint::shl(&mut v, *n),
+        BigOp::Normalize => {
+            bigint::normalize(&mut v);
+            Some(())
+        }
+        BigOp::MulAssign(y) => {
+            // `*=` unwraps internally: a capacity failure is a clean panic
+            let mut b = Bigint {
+                data: v.clone(),
+            };
+            let rhs = match vec_from(y) {
+                Some(d) => Bigint {
+                    data: d,
+                },
+                None => return BigOut::Failed,
+            };
+            b *= &rhs;
+            v = b.data;
+            Some(())
+        }
+        BigOp::PowThenShl(e5, e2) => {
+            // the chain the parser uses: pow(10, e) = pow5 then shl
+            match bigint::pow(&mut v, *e5) {
+                Some(()) => bigint::shl(&mut v, *e2),
+                None => None,
+            }
+        }
+        BigOp::MulSmallAddSmall(m, a) => match v.mul_small(*m) {
+            Some(()) => v.add_small(*a),
+            None => None,
+        },
+    };
+    match r {
+        Some(()) => BigOut::Ok {
+            limbs: v.to_vec(),
+            len: v.len(),
+            capacity: v.capacity(),
+        },
+        None => BigOut::Failed,
+    }
+}
+
+/// Observers: (is_normalized, bit_length, hi64, leading_zeros)
+fn big_observe(x: &[u64]) -> Option<(bool, u32, (u64, bool), u32)> {
+    let v = vec_from(x)?;
+    Some((bigint::is_normalized(&v), bigint::bit_length(&v), bigint::hi64(&v), bigint::leading_zeros(&v)))
+}
+
+fn big_compare(x: &[u64], y: &[u64]) -> core::cmp::Ordering {
+    bigint::compare(x, y)
+}
+
+fn bigint_from_u64(v: u64) -> Vec<u64> {
+    let b = Bigint::from_u64(v);
+    let (hi, trunc) = b.hi64();
+    let mut out = b.data.to_vec();
+    // append observers so the caller can check them too
+    out.push(hi);
+    out.push(trunc as u64);
+    out.push(b.bit_length() as u64);
+    out
+}
+
+#[inline(never)]
+fn poison_stack(pattern: u64) -> u64 {
+    let mut a = [0u64; 2048];
+    for (i, x) in a.iter_mut().enumerate() {
+        *x = pattern.wrapping_add(i as u64) | 1;
+    }
+    let a = core::hint::black_box(a);
+    a[(pattern % 2048) as usize]
+}
+
+fn observe_pair(ret: i64, a: &VecType, b: &VecType) -> VecObs {
+    VecObs {
+        ret,
+        popped: None,
+        a: a.to_vec(),
+        len: a.len(),
+        is_empty: a.is_empty(),
+        capacity: a.capacity(),
+        is_normalized: a.is_normalized(),
+        hi64: a.hi64(),
+        eq_ab: a == b,
+        cmp_ab: a.cmp(b),
+        partial_cmp_ab: a.partial_cmp(b),
+        b: b.to_vec(),
+    }
+}
+
+/// Interpret a history over the safe vector API; one observation per step.
+#[inline(never)]
+fn vec_history(ops: &[VecOp], poison: u64) -> Vec<VecObs> {
+    core::hint::black_box(poison_stack(poison));
+    vec_history_inner(ops)
+}
+
+#[inline(never)]
+fn vec_history_inner(ops: &[VecOp]) -> Vec<VecObs> {
+    let mut a = VecType::new();
+    let mut b = VecType::new();
+    let mut out = Vec::with_capacity(ops.len() + 1);
+    out.push(observe_pair(1, &a, &b));
+    for op in ops {
+        // ret: 1 = Some/true, 0 = None/false
+        let mut popped: Option<u64> = None;
+        let ret: i64 = match op {
+            VecOp::New => {
+                a = VecType::new();
+                1
+            }
+            VecOp::TryFrom(x) => match VecType::try_from(x) {
+                Some(v) => {
+                    a = v;
+                    1
+                }
+                None => 0,
+            },
+            VecOp::Push(x) => a.try_push(*x).is_some() as i64,
+            VecOp::Pop => {
+                popped = a.pop();
+                popped.is_some() as i64
+            }
+            VecOp::Extend(x) => a.try_extend(x).is_some() as i64,
+            VecOp::Resize(n, v) => a.try_resize(*n, *v).is_some() as i64,
+            VecOp::Normalize => {
+                a.normalize();
+                1
+            }
+            VecOp::AddSmall(y) => a.add_small(*y).is_some() as i64,
+            VecOp::MulSmall(y) => a.mul_small(*y).is_some() as i64,
+            VecOp::CloneToB => {
+                b = a.clone();
+                1
+            }
+            VecOp::Swap => {
+                core::mem::swap(&mut a, &mut b);
+                1
+            }
+            VecOp::Write(i, v) => {
+                let n = a.len();
+                if n > 0 {
+                    let idx = *i % n;
+                    a[idx] = *v;
+                }
+                1
+            }
+            VecOp::FromU64(v) => {
+                a = VecType::from_u64(*v);
+                1
+            }
+        };
+        let mut o = observe_pair(ret, &a, &b);
+        o.popped = popped;
+        out.push(o);
+    }
+    out
+}
+
+fn slow_parse_mantissa(int: &[u8], frac: &[u8], max_digits: usize) -> (Vec<u64>, usize) {
+    let (b, n) = ml::slow::parse_mantissa(int.iter(), frac.iter(), max_digits);
+    (b.data.to_vec(), n)
+}
+
 pub const CFG: Cfg = Cfg {
     name: NAME,
     std: STD,
@@ -235,4 +440,14 @@ pub const CFG: Cfg = Cfg {
     consts64,
     pow_fast32,
     pow_fast64,
+    big_apply,
+    big_observe,
+    big_compare,
+    bigint_from_u64,
+    vec_history,
+    slow_parse_mantissa,
+    tables,
+    libm_pow,
+    shapes32: crate::cfgs::SHAPES_UNSET,
+    shapes64: crate::cfgs::SHAPES_UNSET,
 };
